@@ -16,7 +16,7 @@ from ..cfg import dotted, call_name, is_call, simple_name, unparse, const_value,
 from ..flow import Defs, depends, expand, Prov, scoped_defs
 from ..decide import table, ret_kind
 from ..pathflow import PathFlow, effect_args, safe, BUILDERS
-from ..util import keyword, returns_of, calls_in, inside, order_key
+from ..util import resolve1, keyword, returns_of, calls_in, inside, order_key
 
 NOT_DECIDED = 'symlinks planted inside the cache directory, OS path semantics, configuration values (trusted)'
 
@@ -383,8 +383,8 @@ def c09d(ctx):
         comps = []
         for a in j.args:
             a = a.value if isinstance(a, ast.Starred) else a
-            # map(lambda k: <expr>, keys) | generator
-            inner = a
+            # map(lambda k: <expr>, keys) | generator, possibly bound to a local first
+            inner = resolve1(a, defs)
             while isinstance(inner, ast.Call) and simple_name(inner) in ('list', 'tuple'):
                 inner = inner.args[0]
             if isinstance(inner, ast.Call) and simple_name(inner) == 'map' and isinstance(inner.args[0], ast.Lambda):
